@@ -14,10 +14,10 @@ def jobs(tier):
     q = tier == "quick"
     out = []
     for shape in range(8):
-        for size in ((3,) if q else (3, 4)):
+        for size in (3,):
             for i in (range(0, size) if q else range(-1, size + 1)):
                 out.append(CH(name=f"c13_parallel_s{shape}_n{size}_i{i}", base="c13_parallel", func=f"{H}:c13_parallel",
-                              params=[("j", "int"), ("k", "int"), ("l", "int")], pre=([f"0 <= j < {size}", f"0 <= k < {size - 1}", f"0 <= l < {size}"] if q else [f"-1 <= j <= {size}", f"-1 <= k <= {size}", f"-1 <= l <= {size}"]),
+                              params=[("j", "int"), ("k", "int"), ("l", "int")], pre=([f"0 <= j < {size}", f"0 <= k < {size - 1}", f"0 <= l < {size}"] if q else [f"0 <= j < {size}", f"0 <= k < {size}", f"-1 <= l <= {size}"]),
                               fixed={"shape": shape, "size": size, "i": i}, timeout=400 if q else 1500, twin=(shape != 7 and not (shape == 2 and i >= size - 1)),
                               functions=["UsedQubitIndicesVisitor.visit_*", "UsedQubitIndicesVisitor.merge_into", "GateStatement.used_qubits", "GateDefinition.used_qubits",
                                          "IdleGateDefinition.used_qubits", "BusyGateDefinition.used_qubits", "DiscoverSubcircuits.visit_BlockStatement", "run_jaqal_circuit"],
